@@ -2,6 +2,7 @@ package vquery
 
 import (
 	"fmt"
+	"time"
 	"os"
 	"path/filepath"
 	"sort"
@@ -140,8 +141,9 @@ func c36(c *rig.Ctx) {
 	srcDir := filepath.Join(root, "src")
 	cnt := newCounters()
 	l := &limiter{c: c, seen: map[string]int{}}
-	n := c.Pick(4, 200)
+	n := c.Pick(3, 150)
 
+	t0 := time.Now()
 	// ---- phase 1: build the source databases through SQL and snapshot them ---------------------------------------------
 	srv, err := sqlrig.Start(srcDir)
 	rig.Must(err)
@@ -187,6 +189,8 @@ func c36(c *rig.Ctx) {
 	}
 	x.Close()
 	rig.Must(srv.Stop())
+	t1 := time.Now()
+	c.Note(fmt.Sprintf("timing: phase 1 (build + snapshot %d databases) %.1fs", n, t1.Sub(t0).Seconds()))
 
 	// ---- phase 2: dump every database on every route and load the dumps into empty repositories -------------------------
 	loaded := map[string]map[string][]string{} // route -> db -> tables loaded
@@ -257,6 +261,9 @@ func c36(c *rig.Ctx) {
 			}
 		}
 	}
+
+	t2 := time.Now()
+	c.Note(fmt.Sprintf("timing: phase 2 (dump + load, %d CLI invocations) %.1fs", cliCalls, t2.Sub(t1).Seconds()))
 
 	// ---- phase 3: read the copies back over the wire and compare --------------------------------------------------------
 	for _, route := range c36Routes {
